@@ -1,11 +1,11 @@
 SPECIFICATION MCSpec
 CONSTANTS
   NComp = 2
-  RefKind = 2
+  RefKind = 1
   MaxQ = 2
-  WithEvidence = FALSE
-  WithEvv = FALSE
-  ReuseChecksCB = FALSE
+  WithEvidence = TRUE
+  WithEvv = TRUE
+  ReuseChecksCB = TRUE
   ReuseChecksCN = TRUE
   SubtractBroken = TRUE
   EvvSigned = TRUE
@@ -14,3 +14,4 @@ INVARIANT MeaningPreserved
 INVARIANT TargetAcyclic
 INVARIANT MemoSound
 INVARIANT MemoShape
+CONSTRAINT Export
